@@ -44,7 +44,8 @@ def run_reference(cases, pad=None, chunk=60, workers=8):
     os.makedirs(SCRATCH, exist_ok=True)
     jobs = [{"code": c["code"], "filename": c.get("filename", "answer.py"), "inputs": c.get("inputs", []),
              "pad": pad, "calls": [{"fn": k["fn"], "args": k.get("args", []), "kwargs": k.get("kwargs", {}),
-                                    **({"inputs": k["inputs"]} if "inputs" in k else {})}
+                                    **({"inputs": k["inputs"]} if "inputs" in k else {}),
+                                    **({"target": k["target"]} if "target" in k else {})}
                                    for k in c.get("calls", [])] if pad is None else []} for c in cases]
     chunks = [jobs[i:i + chunk] for i in range(0, len(jobs), chunk)]
 
@@ -288,7 +289,7 @@ def oracle(case, refres, sb):
         if sc["result"][0] == "escaped":
             return {"kind": "call-escaped", "cls": sc["result"][1]}, "call() let %s escape" % sc["result"][1]
         if rc["result"] != sc["result"]:
-            return call_signature(case, c, rc, sc), "call %s(%s%s): sandbox %r, direct call %r" % (
+            return call_signature(case, c, rc, sc, refres["globals"]), "call %s(%s%s): sandbox %r, direct call %r" % (
                 c["fn"], ", ".join(c.get("args", [])),
                 "".join(", %s=%s" % kv for kv in c.get("kwargs", {}).items()), sc["result"], rc["result"])
     return None
@@ -303,16 +304,19 @@ def arg_class(expr):
 OVERRIDE_NAMES = ("compile", "eval", "exec", "globals", "exit", "open", "input", "__import__")
 
 
-def call_signature(case, c, rc, sc):
-    if c["fn"] in OVERRIDE_NAMES:
-        return {"kind": "call", "cause": "student-function-named-like-override"}
+def call_signature(case, c, rc, sc, program_globals=()):
+    if c["fn"] in OVERRIDE_NAMES or any(n in OVERRIDE_NAMES for n in program_globals):
+        # the program defines a global with the name of a builtin the sandbox overrides: every execution after the
+        # run() rewrites that global with the sandbox's own object
+        return {"kind": "call", "cause": "student-global-named-like-override"}
     if sc["result"] == ["exc", "KeyError"] and rc["result"][0] == "exc" and "KeyError" in rc.get("mro", []):
         return {"kind": "outcome", "cause": "keyerror-subclass-replaced"}
     classes = sorted({arg_class(a) for a in list(c.get("args", [])) + list(c.get("kwargs", {}).values())})
-    if "float-nonfinite" in classes and sc["result"][0] == "exc" and sc["result"][1] == "NameError":
-        return {"kind": "call", "cause": "arg-float-nonfinite"}
-    return {"kind": "call", "plain": rc["result"][0], "sandbox": sc["result"][0] + (":" + sc["result"][1]
-                                                                                 if sc["result"][0] == "exc" else "")}
+    sig = {"kind": "call", "plain": rc["result"][0], "sandbox": sc["result"][0] + (":" + sc["result"][1]
+                                                                                if sc["result"][0] == "exc" else "")}
+    if "float-nonfinite" in classes:
+        sig["arg"] = "float-nonfinite"
+    return sig
 
 
 def describe_case(case):
